@@ -562,12 +562,12 @@ Section ScanProofs.
     - destruct H as (its' & Hits & H).
       destruct (serialize (o, k')) as [t|e] eqn:Es; rewrite H.
       + cbn [items next_page]. split; [reflexivity|]. split.
-        * unfold page_ok. cbn [items next_page]. split; [rewrite takeN_length; lia|].
+        * unfold page_ok. cbn [items next_page]. split; [rewrite takeN_length; apply N.le_min_l|].
           split; [discriminate|]. intros E. rewrite E in Hits. destruct its'; discriminate.
         * exists its', k'. auto.
       + split; [eapply serialize_failure_500; eauto|]. exists its', k'. auto.
     - destruct H as [-> ->]. cbn [items next_page takeN]. split; [reflexivity|].
-      split; [|reflexivity]. unfold page_ok. cbn [items next_page length]. split; [lia|tauto].
+      split; [|reflexivity]. unfold page_ok. cbn [items next_page length]. split; [apply N.le_0_l|tauto].
   Qed.
 
   Lemma scan_from_token_gen : forall fuel rest pre k t o0,
@@ -597,7 +597,7 @@ Section ScanProofs.
       split; [intros q []|].
       exists its', k', (dropN eff rest). split.
       + rewrite <- Htd at 1. rewrite Hits, <- app_assoc. reflexivity.
-      + split; [|exact He]. rewrite <- Hits, takeN_length. lia.
+      + split; [|exact He]. rewrite <- Hits, takeN_length. apply N.le_min_l.
   Qed.
 
   Lemma full_scan_gen : forall fuel, outcome_ok v (full_scan fuel o lim).
@@ -624,7 +624,7 @@ Section ScanProofs.
       split; [intros q []|].
       exists its', k', (dropN eff v). split.
       + rewrite <- Htd at 1. rewrite Hits, <- app_assoc. reflexivity.
-      + split; [|exact He]. rewrite <- Hits, takeN_length. lia.
+      + split; [|exact He]. rewrite <- Hits, takeN_length. apply N.le_min_l.
   Qed.
 
   (* Whatever the sizes of the tokens: a scan that ends (a page without
